@@ -118,7 +118,7 @@ LF("licensing_error_message", ret="c", props=["C05", "C03"],
    ensures=shape_clauses(LIC, "licensing_error_message", res="c") + [(None, "layout", "is_error_message(c.fields())"),
                                                                        ("C03", "licensing_error_message-as-documented", "c.mv() == error_message_view()")],
    post="proof { assert(c.fields() =~= error_message_view()->Comp_0); }")
-LIC_NOT_IMPL = r'Err\(Error::RdpError\(RdpError::new\(RdpErrorKind::NotImplemented, "Licensing nego not implemented"\)\)\)'
+LIC_NOT_IMPL = r'Err\(Error::RdpError\(RdpError::new\(RdpErrorKind::NotImplemented, "[^"]*"\)\)\)'
 LF("parse_payload", props=["C05", "C03"], keys=True,
    # refusal justification (MS-RDPBCGR 2.2.1.12.1.1 bMsgType): the client implements no licence negotiation; it may refuse LICENSE_REQUEST 0x01,
    # PLATFORM_CHALLENGE 0x02, UPGRADE_LICENSE 0x04 ... as not implemented, but never NEW_LICENSE 0x03 nor ERROR_ALERT 0xFF
